@@ -45,7 +45,10 @@ def run(chk):
         an = names[i % len(names)]
         f = api.ANALYSES.get(an) or EXTRA[an]
         wind = [round(rng.uniform(-25, 25), 2), round(rng.uniform(-25, 25), 2), round(rng.uniform(-6, 6), 2)]
-        sdW = gen.gen_scene(rng, chk.hist, rho="const", wind=False, solver={"type": "nonlinear"})
+        sdW = gen.gen_scene(rng, chk.hist, rho="const", wind=False, solver=gen.gen_solver(rng, chk.hist) if i % 3 == 1 else {"type": "nonlinear"})
+        if i % 7 == 3:
+            sdW["solver"]["match_machup_pro"] = True       # compatibility mode: the wake follows the translational freestream only
+            chk.count("match_machup_pro")
         sd0 = copy.deepcopy(sdW)
         sdW["scene"]["atmosphere"]["V_wind"] = wind
         ac = gen.simple_wing_aircraft(N=3, b=rng.uniform(3, 5), sweep=rng.choice([None, 12.0]), reid=rng.random() < 0.5)
